@@ -12,7 +12,12 @@
 (*   BufSpill  a record larger than the 8 KiB buffer makes BufWriter hand  *)
 (*          a prefix of the buffered bytes to the OS while the batch is    *)
 (*          still being written (jbuf -> jos)                              *)
-(*   flush  persist(): BufWriter::flush (jbuf -> jos)                      *)
+(*   flush  BufWriter::flush (jbuf -> jos).  fjall 2.4.4 does this inside  *)
+(*          every commit: Keyspace::batch() and PartitionHandle::insert    *)
+(*          default to durability = PersistMode::Buffer unless the         *)
+(*          keyspace is configured with manual_journal_persist (xs is not) *)
+(*          - CommitFlush = TRUE.  An acknowledged write therefore always  *)
+(*          survives a process kill; xs' own persist(SyncAll) only adds:   *)
 (*   fsync  persist(SyncAll): File::sync_all (jos -> jdisk)                *)
 (*   ack    the call returns                                               *)
 (* CrashKill keeps jdisk and jos, loses jbuf.  CrashPower keeps jdisk and  *)
@@ -25,13 +30,16 @@
 (*                                                                         *)
 (* Switches (spec mutants, each must make TLC report a violation):         *)
 (*   PersistIns / PersistRem  "sync" | "buffer" (no fsync) | "none"        *)
+(*   CommitFlush = FALSE      fjall with manual_journal_persist: only then *)
+(*                            does "no persist" lose acknowledged writes   *)
+(*                            at a process kill                            *)
 (*   OneBatch = FALSE         three separate inserts, each persisted       *)
 (*   CasFirst = FALSE         content committed after the frame            *)
 (***************************************************************************)
 EXTENDS XsDurProps
 
 CONSTANTS MaxOps, MaxCrashes, Topics, Hashes, TTLs, AllowBig, AllowImport,
-          PersistIns, PersistRem, OneBatch, CasFirst,
+          PersistIns, PersistRem, CommitFlush, OneBatch, CasFirst,
           Gen          \* TRUE: behaviour generation (no crashes, print the operation list)
 
 VARIABLES ops,       \* operations started so far; the last one may still be in flight
@@ -85,9 +93,12 @@ StepCas(h)       == [s |-> "cas", h |-> h, recs |-> <<>>, big |-> FALSE]
 StepBatch(rs, b) == [s |-> "batch", h |-> NOH, recs |-> rs, big |-> b]
 Step(s)          == [s |-> s, h |-> NOH, recs |-> <<>>, big |-> FALSE]
 
-Persist(p) == CASE p = "sync" -> <<Step("flush"), Step("fsync")>>
-                [] p = "buffer" -> <<Step("flush")>>
-                [] OTHER -> <<>>
+(* what follows the write of a batch: the commit's own flush, then xs' persist(p) *)
+Persist(p) == IF CommitFlush
+              THEN <<Step("flush")>> \o (IF p = "sync" THEN <<Step("fsync")>> ELSE <<>>)
+              ELSE CASE p = "sync" -> <<Step("flush"), Step("fsync")>>
+                     [] p = "buffer" -> <<Step("flush")>>
+                     [] OTHER -> <<>>
 
 Three(d, i, f) == <<RI("stream", d, i, f), RI("idxT", d, i, f), RI("idxC", d, i, f)>>
 
@@ -237,7 +248,7 @@ AllCtx == {Z} \cup {e[1] : e \in mem.idxT} \cup {e[1] : e \in mem.idxC} \cup con
 
 Obs ==
   LET str == SortAsc(DOMAIN mem.stream) IN
-  [open |-> TRUE, panic |-> FALSE,
+  [open |-> TRUE, panic |-> FALSE, again |-> TRUE,
    stream   |-> [j \in 1..Len(str) |-> WithId(str[j], mem.stream[str[j]])],
    idxT     |-> SetToSeq(mem.idxT),
    idxC     |-> SetToSeq(mem.idxC),
